@@ -709,6 +709,12 @@ func (h *Handler) Stopped() chan struct{} {
 // decorateHandlerPublisher applies the decorator chain to handler's publisher.
 // They are applied in reverse order, so that the later decorators use the result of former ones.
 func (r *Router) decorateHandlerPublisher(h *handler) error {
+	if h.publisher == nil {
+		// a handler without a publisher has nothing to decorate: a decorator wrapping nil would make
+		// the handler look like it had a publisher and panic as soon as it is used or closed
+		return nil
+	}
+
 	var err error
 	pub := h.publisher
 	for i := len(r.publisherDecorators) - 1; i >= 0; i-- {
